@@ -18,6 +18,7 @@ import (
 	"github.com/btcsuite/btcd/txscript/v2"
 	"github.com/btcsuite/btcd/wire/v2"
 	"github.com/lightningnetwork/lnd/channeldb"
+	"github.com/lightningnetwork/lnd/fn/v2"
 	"github.com/lightningnetwork/lnd/input"
 	"github.com/lightningnetwork/lnd/internal/verifkit"
 	"github.com/lightningnetwork/lnd/lnwallet/chainfee"
@@ -526,6 +527,7 @@ func TestVerifChannelExec(t *testing.T) {
 		pres := map[[32]byte][32]byte{}
 		lastPre := map[string][32]byte{} // per party+amount, for duplicates
 		ndup := 0
+		ntouch := 0
 		npre := 0
 
 		out.Emit(vLine{vEv: vEv{A: "Reset", P: "A"}, Type: tname, Opener: opener, File: filepath.Base(f),
@@ -689,8 +691,19 @@ func TestVerifChannelExec(t *testing.T) {
 						s.out = nil
 					}
 				case "StaleTouch":
-					// a status update that sets no bit, through the stale handle
-					err = me.stale.ApplyChanStatus(channeldb.ChanStatusDefault)
+					// writes that do not belong to the commitment state machine,
+					// through the stale handle (what the chain watcher and the
+					// arbitrator hold): a status update that sets no bit, the close
+					// height recorded at spend detection, its reset on a reorg
+					ntouch++
+					switch ntouch % 3 {
+					case 0:
+						err = me.stale.ApplyChanStatus(channeldb.ChanStatusDefault)
+					case 1:
+						err = me.stale.MarkCloseConfirmationHeight(fn.Some(uint32(100 + ntouch)))
+					default:
+						err = me.stale.ResetCloseConfirmationHeight()
+					}
 				case "SendReest":
 					var m *lnwire.ChannelReestablish
 					m, err = me.lc.channelState.ChanSyncMsg()
